@@ -164,8 +164,10 @@ class Effects:
                 attrs = self.class_attrs(fi)
                 if t[2] in attrs and fi.name != "__init__":
                     init_it = self.it(fi.cls.methods["__init__"].qual)
-                    return self.roots(init_it, attrs[t[2]], seen, ctor=True, own=own)
-                return set()           # state created by the object itself
+                    return self.roots(init_it, attrs[t[2]], seen, ctor=True, own=own) | {("state", t[2])}
+                # state created by the object itself in another method (a cache): shared between calls and,
+                # when that method returned it, with the caller
+                return {("state", t[2])} if fi.name != "__init__" else set()
             return self.roots(it, base, seen, ctor)
         if k == "sub":
             b = index_is_basic(t[2], scal)
